@@ -87,6 +87,7 @@ fn check_tagged_input(ctx: &mut Ctx, ty: Ty, head_tag: Option<u64>, single: bool
         (Err(EK::Panic(s)), _) => ctx.violation(&format!("C14/panic/{}", s), format!("panic at {}", s), wit()),
         (Ok(v), true) => {
             ctx.count("tagged-accepted");
+            ctx.sample(|| J::obj(vec![("type", J::Str(ty.name())), ("tagged_input", J::Str(hex(x))), ("form", J::s(what)), ("outcome", J::s("accepted by from_tagged_slice, equal to untagged decoding of the body, rejected by every other type's tagged decoder and by untagged decoding"))]));
             if !views_equal(v, untagged.as_ref().unwrap()) {
                 ctx.violation(&format!("C14/tagged-value-differs/{}", ty.name()), "tagged decoding yields a different value than untagged decoding of the body".into(), wit());
             }
